@@ -337,6 +337,14 @@ func init() {
 		Variant{Name: "cleanup tail of waitAndCleanup moved into a helper", Property: "C10", File: "transport/mux/session/managed_mux_session.go", Benign: true,
 			Old: "\ts.cancel()\n\t_ = s.session.Close()\n\t_ = s.conn.Close()\n\ts.state.Store(&MuxSessionInfo{State: Closed, Err: s.state.Load().Err})\n\tafterShutdown()\n}\n", New: "\tshutdown(s, afterShutdown)\n}\n\n// shutdown releases everything owned by the session and reports the exit.\nfunc shutdown(s *muxSession, afterShutdown func()) {\n\ts.cancel()\n\t_ = s.session.Close()\n\t_ = s.conn.Close()\n\ts.state.Store(&MuxSessionInfo{State: Closed, Err: s.state.Load().Err})\n\tafterShutdown()\n}\n"},
 	)
+	addVariants(
+		Variant{Name: "forwarder's deferred cancel wrapped in a function literal", Property: "C06", File: "proxy/admin_stream_transfer.go", Benign: true,
+			Old: "\tdefer cancel()\n", New: "\tdefer func() { cancel() }()\n"},
+		Variant{Name: "handler's deferred gauge Dec wrapped in a function literal", Property: "C20", File: "proxy/adminservice.go", Benign: true,
+			Old: "\tdefer streamsActiveGauge.Dec()\n", New: "\tdefer func() { streamsActiveGauge.Dec() }()\n"},
+		Variant{Name: "receiver's deferred cancel wrapped in a function literal", Property: "C08", File: "proxy/proxy_streams.go", Benign: true,
+			Old: "\toutgoingContext, cancel := context.WithCancel(outgoingContext)\n\tdefer cancel()\n", New: "\toutgoingContext, cancel := context.WithCancel(outgoingContext)\n\tdefer func() { cancel() }()\n"},
+	)
 	// ---- C06
 	ast := "proxy/admin_stream_transfer.go"
 	addVariants(
